@@ -154,6 +154,13 @@ theorem C13_binary_search_mem (arr : Array Int) (x : Int)
     binarySearch arr x = true ↔ ∃ i, i < arr.size ∧ arr.getD i 0 = x :=
   binarySearch_iff arr x hs
 
+/-- **C13-T4 (remove_regions).** The model of `remove_regions` — `np.unique` (sort + drop duplicates), then
+`std::binary_search` for every non-zero pixel — zeroes exactly the pixels whose label is in `regions`
+(any list: unsorted, with duplicates, with labels that do not occur, with 0). -/
+theorem C13_remove_regions_spec (labels regions : List Int) :
+    removeRegions labels regions = removeRegionsSpec labels regions :=
+  removeRegions_eq_spec labels regions
+
 /-- **C13-T2 (bbox, generic path).** Let `ps` be the positions of the non-zero pixels of an image that fills
 its shape. On every axis `j` the model of the generic `bbox` loop leaves in `extrema[2j]`, `extrema[2j+1]`
 a box that contains every non-zero pixel (`lo ≤ p_j < hi`) and, when there is such a pixel, is tight: the
